@@ -8,6 +8,9 @@ mod ops_text;
 
 use std::io::{BufRead, Write};
 
+#[global_allocator]
+static GLOBAL: ops_script::Counting = ops_script::Counting;
+
 fn main() {
     let args: Vec<String> = std::env::args().collect();
     if args.len() < 2 {
